@@ -24,6 +24,9 @@ pub enum Fault {
     ReadErr(usize),
     /// the k-th block contains one sample outside the declared width (at in-block offset `off`)
     Range(usize, usize),
+    /// the k-th block is delivered through `fill_le_bytes` in containers one byte wider than `(bps + 7) / 8`
+    /// (e.g. 24-bit audio in 4-byte containers): a `bytes_per_sample` that disagrees with the declared width
+    Width(usize),
 }
 
 /// Test source. Contract followed: every read delivers exactly `block_size` inter-channel samples
@@ -104,6 +107,16 @@ impl<'a> Source for TestSource<'a> {
                     self.scratch_i[i] = 1i32 << (self.bps - 1);
                 }
             }
+        }
+        if self.faults.iter().any(|f| *f == Fault::Width(k)) {
+            let nb = (self.bps + 7) / 8 + 1;
+            self.scratch.clear();
+            for x in &self.scratch_i {
+                self.scratch.extend_from_slice(&(*x as i64).to_le_bytes()[..nb]);
+            }
+            dest.fill_le_bytes(&self.scratch, nb)?;
+            self.pos = begin + n * ch;
+            return Ok(n);
         }
         match self.kind {
             SrcKind::Mem | SrcKind::Int => dest.fill_interleaved(&self.scratch_i)?,
@@ -196,7 +209,11 @@ pub fn encode_by_frames_packet(cfg: &Verified<config::Encoder>, samples: &[i32],
         stream.add_frame(frame);
     }
     stream.stream_info_mut().set_md5_digest(&ctx.md5_digest());
-    stream.stream_info_mut().set_total_samples(ctx.total_samples());
+    // `Stream::add_frame` accumulates the total (documented with `StreamInfo::update_frame_info`); a caller may rely
+    // on that instead of copying the context's count
+    if samples.len() % 4 != 3 {
+        stream.stream_info_mut().set_total_samples(ctx.total_samples());
+    }
     // like the stream-level entry point: with a fixed block size the bounds are (block, block)
     stream.stream_info_mut().set_block_sizes(block, block).map_err(|e| format!("{e:?}"))?;
     Ok((stream, frames))
